@@ -340,6 +340,39 @@ do_hmac(char * l)
 	vt_hex("digest", dig, dl); vt_hex("oneshot", one, dl); vt_bool("zero", zero); vt_end();
 }
 
+/* hashbig ALG LEN CHUNK : LEN bytes of the periodic pattern (byte i = P[i mod 1048573]) fed in updates of CHUNK bytes */
+static void
+do_hashbig(char * l)
+{
+	static uint8_t * pat;
+	const size_t period = 1048573;
+	char alg[16];
+	long long len, chunk, done = 0;
+	uint8_t dig[32];
+	size_t dl, j;
+	int zero;
+	SHA256_CTX c2; SHA1_CTX c1; MD5_CTX c5;
+
+	if (sscanf(l, "hashbig %15s %lld %lld", alg, &len, &chunk) != 3 || len < 0 || chunk < 1 || chunk > (long long)period) return;
+	if (pat == NULL) {
+		pat = __real_malloc(2 * period);
+		for (j = 0; j < 2 * period; j++) { size_t q = j % period; pat[j] = (uint8_t)((131 * q + 7 * (q >> 8) + 13) & 0xff); }
+	}
+	if (strcmp(alg, "sha256") == 0) { SHA256_Init(&c2); dl = 32; }
+	else if (strcmp(alg, "sha1") == 0) { SHA1_Init(&c1); dl = 20; }
+	else { MD5_Init(&c5); dl = 16; }
+	while (done < len) {
+		size_t k = (size_t)((len - done < chunk) ? len - done : chunk);
+		const uint8_t * src = pat + (size_t)(done % (long long)period);	/* (the doubled buffer makes every window contiguous) */
+		if (dl == 32) SHA256_Update(&c2, src, k); else if (dl == 20) SHA1_Update(&c1, src, k); else MD5_Update(&c5, src, k);
+		done += (long long)k;
+	}
+	if (dl == 32) { SHA256_Final(dig, &c2); zero = allzero(&c2, sizeof(c2)); }
+	else if (dl == 20) { SHA1_Final(dig, &c1); zero = allzero(&c1, sizeof(c1)); }
+	else { MD5_Final(dig, &c5); zero = allzero(&c5, sizeof(c5)); }
+	vt_begin("hashbig"); vt_str("alg", alg); vt_int("len", len); vt_int("chunk", chunk); vt_hex("digest", dig, dl); vt_bool("zero", zero); vt_end();
+}
+
 static void
 do_pbkdf2(char * l)
 {
@@ -505,13 +538,15 @@ do_dh(char * l)
 		ossl_failat = 0;
 		vt_begin("dhpub"); vt_str("priv", a); vt_str("blind", b); vt_int("rc", rc); vt_hex("out", res, CRYPTO_DH_PUBLEN);
 	} else {
-		if (sscanf(l, "dhkey %1023s %1023s %1023s %ld", a, b, c, &failat) < 3) return;
+		int inplace = (strncmp(l, "dhkeyi ", 7) == 0);	/* the key is written over the peer's value (the interface does not forbid it) */
+		if (sscanf(l, inplace ? "dhkeyi %1023s %1023s %1023s %ld" : "dhkey %1023s %1023s %1023s %ld", a, b, c, &failat) < 3) return;
 		memset(pub, 0, sizeof(pub)); unhex(a, pub, sizeof(pub)); unhex(b, priv, sizeof(priv)); unhex(c, dh_blind, 32);
 		secret_add(priv, 32, "private exponent (big-endian)"); limbs_le(priv, 32, le); secret_add(le, 32, "private exponent (limb order)");
 		secret_add(dh_blind, 32, "blinding value (big-endian)"); limbs_le(dh_blind, 32, le); secret_add(le, 32, "blinding value (limb order)");
 		memset(res, 0xa5, sizeof(res));
 		ossl_count = ossl_injected = 0; ossl_failat = failat;
-		rc = crypto_dh_compute(pub, priv, res);
+		if (inplace) { memcpy(res, pub, CRYPTO_DH_PUBLEN); rc = crypto_dh_compute(res, priv, res); }
+		else rc = crypto_dh_compute(pub, priv, res);
 		ossl_failat = 0;
 		vt_begin("dhkey"); vt_str("pub", a); vt_str("priv", b); vt_str("blind", c); vt_int("rc", rc); vt_hex("out", res, CRYPTO_DH_KEYLEN);
 	}
@@ -726,6 +761,7 @@ main(int argc, char ** argv)
 	while (fgets(line, sizeof(line), f) != NULL) {
 		if (strncmp(line, "prog", 4) == 0) { vt_reset(); continue; }
 		if (strncmp(line, "hash ", 5) == 0) do_hash(line);
+		else if (strncmp(line, "hashbig ", 8) == 0) do_hashbig(line);
 		else if (strncmp(line, "hmac ", 5) == 0) do_hmac(line);
 		else if (strncmp(line, "pbkdf2 ", 7) == 0) do_pbkdf2(line);
 		else if (strncmp(line, "crc ", 4) == 0) do_crc(line);
